@@ -204,6 +204,9 @@ type cred struct {
 	authority string // user:pass@ form for gRPC :authority ("" = not used)
 	// mTLS
 	cert *tls.Certificate
+	// a client-side TLS session cache shared by every connection made with
+	// this credential: later connections resume the first one's session
+	sess tls.ClientSessionCache
 }
 
 func basic(u, p string) string {
@@ -230,6 +233,7 @@ func httpClient(s *srv, p *pki, c cred) *http.Client {
 		if c.cert != nil {
 			tr.TLSClientConfig.Certificates = []tls.Certificate{*c.cert}
 		}
+		tr.TLSClientConfig.ClientSessionCache = c.sess
 	}
 	return &http.Client{Transport: tr, Timeout: 10 * time.Second}
 }
@@ -267,6 +271,7 @@ func dial(s *srv, p *pki, c cred) (*grpc.ClientConn, error) {
 		if c.cert != nil {
 			tc.Certificates = []tls.Certificate{*c.cert}
 		}
+		tc.ClientSessionCache = c.sess
 		opts = append(opts, grpc.WithTransportCredentials(credentials.NewTLS(tc)))
 	} else {
 		opts = append(opts, grpc.WithTransportCredentials(insecure.NewCredentials()))
@@ -507,10 +512,16 @@ func TestC13Auth(t *testing.T) {
 				creds = []cred{{class: "none"}, {class: "malformed", header: "Basic !!!notbase64"}, {class: "malformed", header: "Basic " + base64.StdEncoding.EncodeToString([]byte("nocolon"))}, {class: "malformed", header: "Bearer abcdef"},
 					{class: "unknown-user", header: basic("mallory", validPass)}, {class: "wrong-password", header: basic(validUser, validPass+"x")}, {class: "wrong-password", header: basic(validUser, validPass[:len(validPass)-1])}, {class: "wrong-password", header: basic(validUser, "")},
 					{class: "wrong-password", authority: validUser + ":nope"}, {class: "unknown-user", authority: "mallory:" + validPass},
-					valid, {class: "valid", header: basic(shaUser, shaPass)}, {class: "valid", authority: validUser + ":" + validPass}}
+					valid, {class: "valid", header: basic(shaUser, shaPass)}, {class: "valid", authority: validUser + ":" + validPass},
+					// order matters for anything that remembers a successful login
+					{class: "wrong-password", header: basic(validUser, validPass+"x")}, {class: "wrong-password", authority: validUser + ":nope"}, {class: "none"}}
 			case "mtls":
 				valid = cred{class: "valid-cert", cert: &p.clientCert}
-				creds = []cred{{class: "no-cert"}, {class: "foreign-cert", cert: &p.foreignClientCert}, valid}
+				// "no-cert-resumed": a certificate-less client that keeps a session
+				// cache, so that all but its first connection resume a TLS session;
+				// once before and once after a valid client has been served
+				creds = []cred{{class: "no-cert"}, {class: "no-cert-resumed", sess: tls.NewLRUClientSessionCache(8)}, {class: "foreign-cert", cert: &p.foreignClientCert}, valid,
+					{class: "no-cert-resumed", sess: tls.NewLRUClientSessionCache(8)}}
 			}
 			before := numFiles(s, p, valid)
 			for _, cr := range creds {
